@@ -1,7 +1,363 @@
-//! (stub) driver module - see tools/HOWTO.md
-use crate::util::Args;
+//! C02 driver: loaders on arbitrary, truncated and corrupted files.
+//!
+//! Seeds are files produced by the engine's own writers (every format, with/without SAUCE and comments).  The case
+//! list is deterministic (seed files x mutations + random inputs); one event per load.  `--start K` resumes after a
+//! case that killed the process (abort / hang), as in the term driver.
+use crate::util::{guard, panic_site, rng, Args, Out};
+use icy_engine::{AttributedChar, BitFont, Buffer, Palette, PaletteFormat, SauceData, SaveOptions, TextAttribute, TextPane, TheDrawFont};
+use rand::Rng;
+use serde_json::{json, Value};
+use std::path::Path;
+use std::sync::atomic::{AtomicU64, Ordering};
+use std::sync::Arc;
+use std::time::{Duration, Instant};
 
-pub fn c02(_a: &Args) {
-    eprintln!("c02: driver not built yet");
-    std::process::exit(2);
+pub const EXTS: [&str; 24] = ["ans", "ice", "diz", "icy", "idf", "bin", "xb", "tnd", "pcb", "avt", "asc", "adf", "msg", "an1", "an5", "an9", "seq", "ata", "nfo", "txt", "zzz", "", "psf", "tdf"];
+
+fn doc(w: i32, h: i32, variant: u64) -> Buffer {
+    let mut buf = Buffer::new((w, h));
+    let mut r = rng(variant, 555);
+    for y in 0..h {
+        for x in 0..w {
+            if r.gen_bool(0.6) {
+                let mut at = TextAttribute::new(r.gen_range(0..16), r.gen_range(0..8));
+                if variant % 3 == 1 && r.gen_bool(0.1) { at.set_is_blinking(true); }
+                let ch = match r.gen_range(0..6) { 0 => ' ', 1 => '\u{00DB}', 2 => 'A', _ => char::from_u32(r.gen_range(33..255)).unwrap_or('x') };
+                buf.layers[0].set_char((x, y), AttributedChar::new(ch, at));
+            }
+        }
+    }
+    buf
+}
+
+pub struct Seed {
+    pub name: String,
+    pub ext: String,
+    pub bytes: Vec<u8>,
+}
+
+/// Seed files from the engine's own writers.
+pub fn seeds() -> Vec<Seed> {
+    let mut res = vec![];
+    let fmts = ["ans", "icy", "idf", "bin", "xb", "tnd", "pcb", "avt", "asc", "adf", "msg", "an1", "seq", "ata"];
+    for (fi, ext) in fmts.iter().enumerate() {
+        for variant in 0..4u64 {
+            let (w, h) = match (*ext, variant) {
+                ("adf" | "idf", _) => (80, 2 + variant as i32),
+                ("ata", _) => (40, 3),
+                ("bin", _) => (80, 2),
+                (_, 0) => (8, 3),
+                (_, 1) => (80, 2),
+                (_, 2) => (3, 1),
+                _ => (16, 4),
+            };
+            let mut b = doc(w, h, fi as u64 * 10 + variant);
+            match *ext {
+                "idf" | "adf" => b.ice_mode = icy_engine::IceMode::Ice,
+                "seq" => b.buffer_type = icy_engine::BufferType::Petscii,
+                "ata" => b.buffer_type = icy_engine::BufferType::Atascii,
+                _ => {}
+            }
+            let mut o = SaveOptions::new();
+            o.lossles_output = true;
+            o.compress = variant % 2 == 0;
+            o.save_sauce = variant >= 2 || *ext == "bin";
+            if variant == 3 {
+                let mut s = SauceData::default();
+                s.title = icy_engine::SauceString::from("title");
+                s.author = icy_engine::SauceString::from("author");
+                s.comments.push(icy_engine::SauceString::from("a comment"));
+                s.comments.push(icy_engine::SauceString::from("another"));
+                s.buffer_size = b.get_size();
+                b.set_sauce(Some(s), false);
+            }
+            if *ext == "xb" && variant == 1 {
+                b.set_font(1, BitFont::default());
+                b.font_mode = icy_engine::FontMode::FixedSize;
+            }
+            match guard(|| b.to_bytes(ext, &o)) {
+                Ok(Ok(bytes)) => res.push(Seed { name: format!("{ext}-v{variant}"), ext: (*ext).to_string(), bytes }),
+                Ok(Err(e)) => { if std::env::var("VERIF_DEBUG").is_ok() { eprintln!("seed {ext}-v{variant}: {e}"); } }
+                Err(p) => { if std::env::var("VERIF_DEBUG").is_ok() { eprintln!("seed {ext}-v{variant}: panic {}", panic_site(&p)); } }
+            }
+        }
+    }
+    // fonts and TheDraw fonts
+    if let Ok(Ok(p)) = guard(|| BitFont::default().to_psf2_bytes()) { res.push(Seed { name: "psf2".into(), ext: "psf".into(), bytes: p }); }
+    let mut psf1 = vec![0x36, 0x04, 0, 8];
+    psf1.extend(std::iter::repeat(0x55).take(256 * 8));
+    res.push(Seed { name: "psf1".into(), ext: "psf".into(), bytes: psf1 });
+    res.push(Seed { name: "raw-f08".into(), ext: "psf".into(), bytes: vec![0xAA; 256 * 8] });
+    for t in 0..3 {
+        let mut f = TheDrawFont::new(format!("FONT{t}"), match t { 0 => icy_engine::FontType::Outline, 1 => icy_engine::FontType::Block, _ => icy_engine::FontType::Color }, 1);
+        let g = icy_engine::FontGlyph { size: (2, 2).into(), data: if t == 2 { vec![65, 7, 66, 7, 13, 67, 7, 68, 7] } else { vec![65, 66, 13, 67, 68] } };
+        f.set_glyph('A', g.clone());
+        f.set_glyph('~', g);
+        if let Ok(Ok(bytes)) = guard(|| TheDrawFont::create_font_bundle(&[f.clone(), f.clone()])) { res.push(Seed { name: format!("tdf-{t}"), ext: "tdf".into(), bytes }); }
+    }
+    // palettes
+    let pal = Palette::dos_default();
+    for (n, f) in [("hex", PaletteFormat::Hex), ("pal", PaletteFormat::Pal), ("gpl", PaletteFormat::Gpl), ("ice", PaletteFormat::Ice), ("txt", PaletteFormat::Txt)] {
+        res.push(Seed { name: format!("palette-{n}"), ext: format!("pal:{n}"), bytes: pal.export_palette(&f) });
+    }
+    res
+}
+
+fn pal_format(n: &str) -> PaletteFormat {
+    match n { "hex" => PaletteFormat::Hex, "pal" => PaletteFormat::Pal, "gpl" => PaletteFormat::Gpl, "ice" => PaletteFormat::Ice, _ => PaletteFormat::Txt }
+}
+
+/// One load through the entry point that belongs to `ext`. Returns (outcome, detail).
+fn load(ext: &str, bytes: &[u8]) -> Value {
+    let t0 = Instant::now();
+    let mut v = if ext == "psf" {
+        match guard(|| BitFont::from_bytes("f", bytes)) {
+            Ok(Ok(f)) => json!({"r":"ok","w":f.size.width,"h":f.size.height,"n":f.length}),
+            Ok(Err(_)) => json!({"r":"err"}),
+            Err(p) => json!({"r":"panic","site":panic_site(&p)}),
+        }
+    } else if ext == "tdf" {
+        match guard(|| TheDrawFont::from_tdf_bytes(bytes)) {
+            Ok(Ok(f)) => json!({"r":"ok","n":f.len()}),
+            Ok(Err(_)) => json!({"r":"err"}),
+            Err(p) => json!({"r":"panic","site":panic_site(&p)}),
+        }
+    } else if let Some(n) = ext.strip_prefix("pal:") {
+        match guard(|| Palette::load_palette(&pal_format(n), bytes)) {
+            Ok(Ok(p)) => json!({"r":"ok","n":p.len()}),
+            Ok(Err(_)) => json!({"r":"err"}),
+            Err(p) => json!({"r":"panic","site":panic_site(&p)}),
+        }
+    } else if ext == "sauce" {
+        match guard(|| SauceData::extract(bytes)) {
+            Ok(Ok(Some(s))) => json!({"r":"ok","n":s.comments.len(),"hdr":s.sauce_header_len}),
+            Ok(Ok(None)) => json!({"r":"ok","n":-1}),
+            Ok(Err(_)) => json!({"r":"err"}),
+            Err(p) => json!({"r":"panic","site":panic_site(&p)}),
+        }
+    } else {
+        let name = if ext.is_empty() { "noext".to_string() } else { format!("f.{ext}") };
+        match guard(|| Buffer::from_bytes(Path::new(&name), true, bytes)) {
+            Ok(Ok(b)) => json!({"r":"ok","w":b.get_width(),"h":b.get_height(),"n":b.layers.len()}),
+            Ok(Err(_)) => json!({"r":"err"}),
+            Err(p) => json!({"r":"panic","site":panic_site(&p)}),
+        }
+    };
+    v["ms"] = json!(t0.elapsed().as_millis() as u64);
+    v
+}
+
+pub struct LCase {
+    pub ext: String,
+    pub seed: String,
+    pub mutation: String,
+    pub bytes: Vec<u8>,
+}
+
+/// Deterministic case list.
+pub fn cases(seed: u64, thorough: bool, faults: &[Value]) -> Vec<LCase> {
+    let mut out = vec![];
+    let sds = seeds();
+    let mut r = rng(seed, 4711);
+    for s in &sds {
+        let n = s.bytes.len();
+        let is_file = !(s.ext == "psf" || s.ext == "tdf" || s.ext.starts_with("pal:"));
+        let push = |out: &mut Vec<LCase>, m: String, b: Vec<u8>| {
+            out.push(LCase { ext: s.ext.clone(), seed: s.name.clone(), mutation: m.clone(), bytes: b.clone() });
+            if is_file {
+                // the SAUCE extractor sees every file as well
+                out.push(LCase { ext: "sauce".into(), seed: s.name.clone(), mutation: m, bytes: b });
+            }
+        };
+        // every truncation (strided for big files in the quick tier)
+        let stride = if n > 1500 && !thorough { (n / 700).max(1) } else { 1 };
+        let mut k = 0;
+        while k <= n {
+            push(&mut out, format!("trunc:{k}"), s.bytes[..k].to_vec());
+            k += if k < 160 || k + 160 > n { 1 } else { stride };
+        }
+        // header bytes: every byte of the first 48 set to extremes; 16/32-bit extremes at every even offset
+        for off in 0..n.min(48) {
+            for val in [0u8, 1, 0x7F, 0x80, 0xFF] {
+                if s.bytes[off] != val {
+                    let mut b = s.bytes.clone();
+                    b[off] = val;
+                    push(&mut out, format!("byte:{off}={val}"), b);
+                }
+            }
+            if off + 1 < n {
+                for val in [0xFFFFu16, 0x7FFF, 0x8000] {
+                    let mut b = s.bytes.clone();
+                    b[off..off + 2].copy_from_slice(&val.to_le_bytes());
+                    push(&mut out, format!("u16:{off}={val}"), b);
+                }
+            }
+            if off + 3 < n && off % 2 == 0 {
+                for val in [0xFFFF_FFFFu32, 0x7FFF_FFFF, 0x8000_0000, 0x0100_0000] {
+                    let mut b = s.bytes.clone();
+                    b[off..off + 4].copy_from_slice(&val.to_le_bytes());
+                    push(&mut out, format!("u32:{off}={val}"), b);
+                }
+            }
+        }
+        // random 1..3 byte corruptions
+        for i in 0..(if thorough { 400 } else { 60 }) {
+            if n == 0 { break; }
+            let mut b = s.bytes.clone();
+            let m = r.gen_range(1..=3);
+            let mut desc = String::new();
+            for _ in 0..m {
+                let o = r.gen_range(0..n);
+                let v: u8 = if r.gen_bool(0.5) { r.gen() } else { *[0u8, 0xFF, 0x1A, 0x80].get(r.gen_range(0..4)).unwrap() };
+                b[o] = v;
+                desc.push_str(&format!("{o}={v},"));
+            }
+            push(&mut out, format!("corrupt{i}:{desc}"), b);
+        }
+        // TLC-derived structural faults (Gen_Loader): truncations at structure boundaries and field extremes
+        for f in faults {
+            if f["seed"].as_str() != Some(s.name.as_str()) { continue; }
+            let mut b = s.bytes.clone();
+            match f["kind"].as_str().unwrap_or("") {
+                "trunc" => { let at = f["at"].as_u64().unwrap_or(0) as usize; if at <= n { b.truncate(at); } else { continue; } }
+                "set" => {
+                    let off = f["off"].as_u64().unwrap_or(0) as usize;
+                    let wd = f["width"].as_u64().unwrap_or(1) as usize;
+                    let val = f["val"].as_u64().unwrap_or(0);
+                    if off + wd > n { continue; }
+                    for i in 0..wd { b[off + i] = ((val >> (8 * i)) & 0xFF) as u8; }
+                }
+                _ => continue,
+            }
+            push(&mut out, format!("tlc:{}", f["id"].as_str().unwrap_or("?")), b);
+        }
+        // the same bytes under every other extension
+        if is_file {
+            for e in EXTS.iter().filter(|e| **e != "psf" && **e != "tdf") {
+                if *e != s.ext { out.push(LCase { ext: (*e).to_string(), seed: s.name.clone(), mutation: "as-other-extension".into(), bytes: s.bytes.clone() }); }
+            }
+        }
+    }
+    // SAUCE tails: every kind of 128-byte tail that starts with "SAUCE", on short and long contents
+    let mut rec = vec![0u8; 128];
+    rec[..7].copy_from_slice(b"SAUCE00");
+    for i in 7..90 { rec[i] = b' '; }
+    rec[82..90].copy_from_slice(b"20240101");
+    for comments in [0u8, 1, 2, 254, 255] {
+        for content_len in [0usize, 1, 5, 63, 64, 65, 128, 129, 200] {
+            for with_comnt in [false, true] {
+                for dt in [0u8, 1, 5, 6, 9] {
+                    let mut b = vec![b'x'; content_len];
+                    if with_comnt { b.extend(b"COMNT"); b.extend(vec![b'c'; 64 * (comments as usize).min(3)]); }
+                    let mut rr = rec.clone();
+                    rr[94] = dt;
+                    rr[95] = r.gen();
+                    rr[96] = r.gen(); rr[97] = r.gen(); rr[98] = r.gen(); rr[99] = r.gen();
+                    rr[104] = comments;
+                    rr[105] = r.gen();
+                    b.extend(&rr);
+                    for e in ["sauce", "ans", "xb", "bin", "idf", "adf", "tnd", "icy", "asc", "pcb"] {
+                        out.push(LCase { ext: e.to_string(), seed: "sauce-tail".into(), mutation: format!("c={comments},len={content_len},comnt={with_comnt},dt={dt}"), bytes: b.clone() });
+                    }
+                }
+            }
+        }
+    }
+    // bad version / date fields
+    for (o, v) in [(5usize, b'9'), (82, b'x'), (86, b'9'), (88, b'9')] {
+        let mut rr = rec.clone();
+        rr[o] = v;
+        out.push(LCase { ext: "sauce".into(), seed: "sauce-tail".into(), mutation: format!("field{o}"), bytes: rr.clone() });
+        out.push(LCase { ext: "ans".into(), seed: "sauce-tail".into(), mutation: format!("field{o}"), bytes: rr });
+    }
+    // random bytes under every extension
+    for i in 0..(if thorough { 6000 } else { 600 }) {
+        let n = match i % 4 { 0 => r.gen_range(0..16), 1 => r.gen_range(0..200), 2 => r.gen_range(0..5000), _ => r.gen_range(100..300) };
+        let mut b: Vec<u8> = (0..n).map(|_| r.gen()).collect();
+        // half of them start with a format magic
+        match i % 8 {
+            1 => { let m = b"XBIN\x1a"; let k = m.len().min(b.len()); b[..k].copy_from_slice(&m[..k]); }
+            3 => { let m = b"\x041.4"; let k = m.len().min(b.len()); b[..k].copy_from_slice(&m[..k]); }
+            5 => { let m = b"\x18TUNDRA24"; let k = m.len().min(b.len()); b[..k].copy_from_slice(&m[..k]); }
+            7 => { let m = b"\x13TheDraw FONTS file\x1a\x55\xaa\x00\xff"; let k = m.len().min(b.len()); b[..k].copy_from_slice(&m[..k]); }
+            _ => {}
+        }
+        let e = EXTS[i % EXTS.len()];
+        out.push(LCase { ext: e.to_string(), seed: "random".into(), mutation: format!("random{i}"), bytes: b.clone() });
+        if i % 3 == 0 { out.push(LCase { ext: format!("pal:{}", ["hex", "pal", "gpl", "ice", "txt"][i % 5]), seed: "random".into(), mutation: format!("random{i}"), bytes: b }); }
+    }
+    out
+}
+
+pub fn c02(a: &Args) {
+    let out_path = a.str("out", "work/C02/trace.ndjson");
+    let progress = a.str("progress", &format!("{out_path}.progress"));
+    let seed = a.u64("seed", 0);
+    let thorough = a.str("tier", "quick") == "thorough";
+    let start = a.usize("start", 0);
+    let shard = a.usize("shard", 0);
+    let shards = a.usize("shards", 1);
+    let limit_s = a.u64("case-timeout", 10);
+    crate::term::set_mem_limit(a.u64("mem-mb", 2048));
+    let faults: Vec<Value> = std::fs::read_to_string(a.str("faults", "gen/loader_faults.ndjson")).map(|t| t.lines().filter_map(|l| serde_json::from_str(l).ok()).collect()).unwrap_or_default();
+    if a.has("dump-seeds") {
+        let mut o = Out::create(&a.str("dump-seeds", ""));
+        for s in seeds() { o.ev(&json!({"name":s.name,"ext":s.ext,"len":s.bytes.len(),"head":s.bytes.iter().take(64).collect::<Vec<_>>()})); }
+        return;
+    }
+    let all = cases(seed, thorough, &faults);
+    let mine: Vec<&LCase> = all.iter().enumerate().filter(|(i, _)| i % shards == shard).map(|(_, c)| c).collect();
+    if a.has("dump-case") {
+        let k = a.usize("dump-case", 0);
+        if let Some(c) = mine.get(k) {
+            println!("{}", json!({"ext":c.ext,"seed":c.seed,"mut":c.mutation,"bytes":c.bytes}));
+        }
+        return;
+    }
+    // watchdog
+    let case_no = Arc::new(AtomicU64::new(u64::MAX));
+    {
+        let case_no = case_no.clone();
+        let progress = progress.clone();
+        std::thread::spawn(move || {
+            let mut last = (u64::MAX, Instant::now());
+            loop {
+                std::thread::sleep(Duration::from_millis(100));
+                let c = case_no.load(Ordering::Relaxed);
+                if c == u64::MAX { continue; }
+                if c != last.0 { last = (c, Instant::now()); continue; }
+                if last.1.elapsed() > Duration::from_secs(limit_s) {
+                    let _ = std::fs::write(&progress, format!("{c} timeout\n"));
+                    unsafe { libc::_exit(3) };
+                }
+            }
+        });
+    }
+    let mut out = if start > 0 { Out::append(&out_path) } else { Out::create(&out_path) };
+    for (i, c) in mine.iter().enumerate().skip(start) {
+        if i % 64 == 0 {
+            out.flush();
+        }
+        // progress is cheap enough to write per case only when the previous one was slow; otherwise every 16 cases
+        let _ = std::fs::write(&progress, format!("{i} running\n"));
+        case_no.store(i as u64, Ordering::Relaxed);
+        let mut ev = load(&c.ext, &c.bytes);
+        ev["ev"] = json!("load");
+        ev["i"] = json!(i);
+        ev["fmt"] = json!(c.ext);
+        ev["seed"] = json!(c.seed);
+        ev["mut"] = json!(c.mutation);
+        ev["len"] = json!(c.bytes.len());
+        if c.bytes.len() <= 64 && (c.mutation.starts_with("tlc:") || c.seed == "sauce-tail") {
+            ev["bytes"] = json!(c.bytes);
+        }
+        out.ev(&ev);
+        if ev["r"] != "ok" && ev["r"] != "err" {
+            out.flush();
+        }
+    }
+    out.flush();
+    case_no.store(u64::MAX, Ordering::Relaxed);
+    let _ = std::fs::write(&progress, format!("{} done\n", mine.len()));
+    eprintln!("c02: shard {shard}/{shards}: {} loads", mine.len() - start.min(mine.len()));
 }
